@@ -347,8 +347,10 @@ var _ *openfgav1.Userset
 //@                              ==> e.weights == old(e.weights) && e.wildcards == old(e.wildcards)
 //@   ensures deps_kept: tupleCycleDependencies[nodeCycle] == old(tupleCycleDependencies[nodeCycle]) && (forall j int :: 0 <= j && j < len(tupleCycleDependencies[nodeCycle]) ==> tupleCycleDependencies[nodeCycle][j] == old(tupleCycleDependencies[nodeCycle][j]))
 //@   ensures deps_separated: sepDeps(tupleCycleDependencies)
+//@   ensures edge_lists_kept: wg.edges != tupleCycleDependencies ==> (forall k string :: wg.edges[k] == old(wg.edges[k]))
 //@   ensures in_range: forall j int :: 0 <= j && j < len(tupleCycleDependencies[nodeCycle]) ==> weightsInRange(tupleCycleDependencies[nodeCycle][j].weights)
 //@   ensures old_maps_untouched: forall m map[string]int, k string :: old(allocated(m)) ==> has(m, k) == old(has(m, k)) && m[k] == old(m[k])
+//@   loop 1 invariant edge_lists_kept: wg.edges != tupleCycleDependencies ==> (forall k string :: wg.edges[k] == old(wg.edges[k]))
 //@   loop 1 invariant sepWildcards() && sepDeps(tupleCycleDependencies)
 //@   loop 1 invariant closed_deps: forall a string :: arr(tupleCycleDependencies[a]) == 0 || allocated(arr(tupleCycleDependencies[a]))
 //@   loop 1 invariant no_self: !has(wg.nodes[nodeCycle].weights, referenceNodeID)
@@ -370,6 +372,7 @@ var _ *openfgav1.Userset
 //@   loop 1 invariant forall e *WeightedAuthorizationModelEdge :: old(allocated(e)) && isDependantEdge(tupleCycleDependencies[nodeCycle], $i, e) ==> !has(e.weights, referenceNodeID)
 //@   loop 1 invariant forall e *WeightedAuthorizationModelEdge :: old(allocated(e)) && !isDependantEdge(tupleCycleDependencies[nodeCycle], $i, e) ==> e.weights == old(e.weights) && e.wildcards == old(e.wildcards)
 //@   loop 1 invariant forall m map[string]int, k string :: old(allocated(m)) ==> has(m, k) == old(has(m, k)) && m[k] == old(m[k])
+//@   loop 1.1 invariant edge_lists_kept: wg.edges != tupleCycleDependencies ==> (forall k string :: wg.edges[k] == old(wg.edges[k]))
 //@   loop 1.1 invariant sep_w: sepWildcards()
 //@   loop 1.1 invariant sep_d: sepDeps(tupleCycleDependencies)
 //@   loop 1.1 invariant deps_header: tupleCycleDependencies[nodeCycle] == old(tupleCycleDependencies[nodeCycle])
@@ -383,6 +386,7 @@ var _ *openfgav1.Userset
 //@   loop 1.1 invariant forall k string :: $visited[k] && k != referenceNodeID ==> edge.weights[k] <= edgeWeights[k]
 //@   loop 1.1 invariant forall k string :: $visited[referenceNodeID] && has(wg.nodes[nodeCycle].weights, k) ==> wg.nodes[nodeCycle].weights[k] <= edgeWeights[k]
 //@   loop 1.1 invariant forall k string :: has(edgeWeights, k) ==> ($visited[k] && k != referenceNodeID && edgeWeights[k] == edge.weights[k]) || ($visited[referenceNodeID] && has(wg.nodes[nodeCycle].weights, k) && edgeWeights[k] == wg.nodes[nodeCycle].weights[k])
+//@   loop 1.1.1 invariant edge_lists_kept: wg.edges != tupleCycleDependencies ==> (forall k string :: wg.edges[k] == old(wg.edges[k]))
 //@   loop 1.1.1 invariant sep_w: sepWildcards()
 //@   loop 1.1.1 invariant sep_d: sepDeps(tupleCycleDependencies)
 //@   loop 1.1.1 invariant deps_header: tupleCycleDependencies[nodeCycle] == old(tupleCycleDependencies[nodeCycle])
@@ -421,6 +425,7 @@ var _ *openfgav1.Userset
 //@                              <==> (k != "R#" + nodeID && (exists i int :: 0 <= i && i < len(old(wg.edges[nodeID])) && has(old(old(wg.edges[nodeID])[i].weights), k))))
 //@   ensures all_infinite: err == nil ==> (forall k string :: has(old(wg.nodes[nodeID]).weights, k) ==> old(wg.nodes[nodeID]).weights[k] == Infinite)
 //@   ensures dependencies_resolved: err == nil ==> !has(tupleCycleDependencies, nodeID)
+//@   ensures edge_lists_kept: wg.edges != tupleCycleDependencies ==> (forall k string :: wg.edges[k] == old(wg.edges[k]))
 //@   ensures separated: sepWildcards()
 //@   ensures error_changes_nothing: err != nil ==> (forall n *WeightedAuthorizationModelNode :: old(allocated(n)) ==> n.weights == old(n.weights))
 //@                              && (forall e *WeightedAuthorizationModelEdge :: old(allocated(e)) ==> e.weights == old(e.weights))
@@ -461,7 +466,7 @@ var _ *openfgav1.Userset
 //@   assumes inv_deps_ed: err == nil ==> sepED(wg, tupleCycleDependencies)
 //@   assumes inv_range_e: err == nil ==> inRangeE()
 //@   assumes inv_range_n: err == nil ==> inRangeN()
-//@   assumes edge_lists_kept: forall k string :: wg.edges[k] == old(wg.edges[k])
+//@   ensures edge_lists_kept: forall k string :: wg.edges[k] == old(wg.edges[k])
 //@   assumes edge_arrays_kept: forall s []*WeightedAuthorizationModelEdge, i int :: isold(s) && (forall a string :: arr(s) != arr(old(tupleCycleDependencies[a]))) ==> s[i] == old(s[i])
 //@   assumes foreign_arrays_stay_foreign: forall s []*WeightedAuthorizationModelEdge :: isold(s) && (forall b string :: arr(s) != arr(old(tupleCycleDependencies[b]))) ==> (forall a string :: arr(s) != arr(tupleCycleDependencies[a]))
 //@   -- ENGINE LIMITATION: the two clauses error_is_sentinel and constraint_on_cycle_rejected need the package-initialisation fact
